@@ -72,10 +72,39 @@ static void enum_repairs (int k, int kmax, int from, int left)
       }
 }
 
+
+/* symbolic grammar family with `error' (DESIGN.md section 5): up to maxr rules over {S, A, a, b, error} */
+static const char *const sg_names[4] = { "n0", "n1", "n2", "n3" };
+static void build_sg (void)
+{
+  int maxr = (int) sx_param ("maxr", 2), maxl = (int) sx_param ("maxl", 2), r, k, nr; struct grammar *t;
+  memset (&G, 0, sizeof G);
+  G.id = "SGE"; G.nsym = 5;
+  G.sym[0].name = "a"; G.sym[0].kind = SK_TERM; G.sym[0].code = 'a';
+  G.sym[1].name = "b"; G.sym[1].kind = SK_TERM; G.sym[1].code = 'b';
+  G.sym[2].name = "error"; G.sym[2].kind = SK_ERR; G.sym[2].code = -1;
+  G.sym[3].name = "S"; G.sym[3].kind = SK_NT; G.sym[3].code = -1;
+  G.sym[4].name = "A"; G.sym[4].kind = SK_NT; G.sym[4].code = -1;
+  nr = sx_param ("nrules", -1) > 0 ? (int) sx_param ("nrules", -1) : 1 + sx_choice ("nrules", maxr);
+  G.nrule = nr;
+  for (r = 0; r < nr; r++)
+    {
+      struct grule *R = &G.rule[r];
+      R->lhs = r == 0 ? 3 : 3 + sx_choice ("lhs", 2);
+      R->n = (r == 0 && sx_param ("len0", -1) >= 0) ? (int) sx_param ("len0", -1) : sx_choice ("rhslen", maxl + 1);
+      for (k = 0; k < R->n; k++) R->rhs[k] = sx_choice ("rhs", 5);
+      R->anode = sg_names[r]; R->cost = 1; R->ntr = R->n; for (k = 0; k < R->n; k++) R->tr[k] = k;
+    }
+  t = yaep_create_grammar (); sx_assume (t != NULL);
+  if (g_define (t, 1) != 0) sx_end_path ();           /* only grammars accepted under strict checking */
+  yaep_free_grammar (t);
+}
+
 void harness (void)
 {
   struct pconf c; struct pres r; int ok, conf, i, ep = -1, n, total, bad, m;
-  p_setup ();
+  if (sx_param ("sg", 0)) { build_sg (); p_input_all ((int) sx_param ("len", 2), -1); p_to_seq (); }
+  else p_setup ();
   n = p_n;
   ok = o_sentence ();
   if (sx_param ("only_errors", 1)) sx_assume (!ok);
